@@ -173,6 +173,72 @@ def register(OPS, drv):
                         L(ps[2].adjust_mimetype(m)), L(ps[3].adjust_mimetype(m))])
         return out
 
+    def op_c06_live(job):
+        """The real ThreadingTCPServer + GopherRequestHandler on an ephemeral port (demo certificate for the
+        TLS protocols).  Each request is a list of `pieces` written one after the other with a pause in
+        between (TCP_NODELAY, so every piece travels on its own), the way a network or a client that
+        flushes in the middle delivers a request; the reply is read until the server closes."""
+        import base64
+        import os
+        import socket
+        import ssl
+        import threading
+        import time
+        import pygopherd.server as pserver
+        spec = dict(job)
+        cfg = dict(spec.get("config") or {})
+        pg = dict(cfg.get("pygopherd", {}))
+        pg.update({"servername": "gopher.example", "advertisedport": "70", "timeout": "20"})
+        cfg["pygopherd"] = pg
+        spec["config"] = cfg
+        w = drv.World(spec)
+        crt = os.path.join(drv.REPO, "testdata", "demo.crt")
+        key = os.path.join(drv.REPO, "testdata", "demo.key")
+        ctx = ssl.create_default_context(ssl.Purpose.CLIENT_AUTH)
+        ctx.load_cert_chain(crt, key)
+        cctx = ssl.SSLContext(ssl.PROTOCOL_TLS_CLIENT)
+        cctx.check_hostname = False
+        cctx.verify_mode = ssl.CERT_NONE
+        srv = pserver.ThreadingTCPServer(w.config, ("127.0.0.1", 0), pserver.GopherRequestHandler, context=ctx)
+        srv.daemon_threads = True
+        th = threading.Thread(target=srv.serve_forever, kwargs={"poll_interval": 0.05}, daemon=True)
+        th.start()
+        res = []
+        try:
+            for r in job["requests"]:
+                got, err = [], None
+                t0 = time.time()
+                s = socket.create_connection(srv.server_address[:2], timeout=15)
+                try:
+                    s.setsockopt(socket.IPPROTO_TCP, socket.TCP_NODELAY, 1)
+                    if r.get("tls"):
+                        s = cctx.wrap_socket(s)
+                    pieces = r["pieces"]
+                    for i, pc in enumerate(pieces):
+                        s.sendall(drv.s2b(pc))
+                        if i + 1 < len(pieces):
+                            time.sleep(r.get("pause_ms", 30) / 1000.0)
+                    while True:
+                        d = s.recv(1 << 16)
+                        if not d:
+                            break
+                        got.append(d)
+                except Exception as e:  # what a client would see
+                    err = type(e).__name__ + ": " + str(e)
+                finally:
+                    try:
+                        s.close()
+                    except Exception:
+                        pass
+                res.append({"out": drv.b2s(b"".join(got)), "exc": err, "secs": round(time.time() - t0, 3)})
+        finally:
+            srv.shutdown()
+            srv.server_close()
+            th.join(timeout=5)
+            w.close()
+        return {"results": res}
+
+    OPS["c06_live"] = op_c06_live
     OPS["c06_rows"] = op_c06_rows
     OPS["c06_geturl"] = op_c06_geturl
     OPS["c06_dirs"] = op_c06_dirs
